@@ -4,7 +4,7 @@
 //!  * src/codegen/testing.rs: `TestCase::run` (whole function), `get_tests`
 //!    (filter predicate, key pipeline, sort, display name / look-up key),
 //!    `run_tests` (counter state, loop source, loop body, final decision);
-//!  * src/pipeline.rs: `Package<NoCtx>::run_tests`;
+//!  * src/pipeline.rs: `Package<NoCtx>::run_tests`, `Package<Ctx<C>>::run_tests`, `Package::get_tests`;
 //!  * src/cli.rs: `enum Command`, every arm of `cli_inner`, `cli`;
 //!  * src/typechecker/function.rs `test` and src/mir/lower.rs `test`: the
 //!    `format!("test#…")` name and the signature a test gets.
@@ -810,9 +810,26 @@ fn package_run_tests(pipeline: &syn::File) -> R {
     rewrite(&mut f.block)?;
     let cx = base_cx();
     let body = cx.block(&f.block.stmts)?;
-    Ok(format!(
+    let mut out = format!(
         "/-- `Package<NoCtx>::run_tests` (src/pipeline.rs) -/\ndef Package_run_tests {{ε : Type}} (dbg : Bool) (self : Package) : Run ε (RResult Unit Unit) :=\n {body}\n\n"
-    ))
+    );
+    // the sibling entry points: `Package<Ctx<C>>::run_tests(ctx)` and `Package::get_tests`
+    let mut f = find::func(pipeline, "run_tests", Some("Package<Ctx<C>>"))?;
+    rewrite(&mut f.block)?;
+    let mut cx = base_cx();
+    // `Ctx(ctx)` wraps the host's context value; the model's context is `Unit`
+    cx.paths.insert("Ctx".into(), "id".into());
+    let body = cx.block(&f.block.stmts)?;
+    out.push_str(&format!(
+        "/-- `Package<Ctx<C>>::run_tests` (src/pipeline.rs) -/\ndef Package_run_tests_ctx {{ε : Type}} (dbg : Bool) (self : Package) (ctx : Unit) : Run ε (RResult Unit Unit) :=\n {body}\n\n"
+    ));
+    let mut f = find::func(pipeline, "get_tests", Some("Package<Ctx>"))?;
+    rewrite(&mut f.block)?;
+    let body = base_cx().block(&f.block.stmts)?;
+    out.push_str(&format!(
+        "/-- `Package::get_tests` (src/pipeline.rs) -/\ndef Package_get_tests (dbg : Bool) (self : Package) : Res (List TestCase) :=\n {body}\n\n"
+    ));
+    Ok(out)
 }
 
 // ------------------------------------------------- how a test becomes a function
